@@ -2,6 +2,10 @@
 // real plugin root with shell-script plugins, through sequences of operations, and the real
 // internal/semver on generated version strings.
 //
+// Plugin names range over every kind of single path element (oddNames: punctuation outside
+// [a-zA-Z0-9_.-], spaces, non-ASCII, shell / pattern characters, case variants, dots, dashes):
+// Install, Get, List and Uninstall have to agree on them.
+//
 // Everything the concrete world contains is a function of the abstract input (file modes and
 // the flavour of an invalid plugin derive from the content id), so a case replays exactly.
 package c20
@@ -690,6 +694,125 @@ func (g *gen) goxOnly(name string, s *Script) Entry {
 var extras = []string{"LICENSE", "zlib.so", "a.txt", "README.md", "notation-", "Notation-x", "notation", "~last", "0first"}
 var pluginNames = []string{"foo", "foo", "foo", "bar", "a.b"}
 
+// ---- plugin names --------------------------------------------------------------------------
+//
+// A plugin name is ANY single path element (validatePluginName: not empty, not "." / "..", no
+// separator, no NUL). Install, Get, List and Uninstall must agree on that: a name one of them treats
+// differently (filtered, normalised, split, matched as a pattern) installs and answers but cannot be
+// listed / fetched / removed. The shapes of this generator are written with baseNames; oddNames are what a
+// sequence may be renamed to (consistently: directories of the root, notation-<name> files, reported names).
+var baseNames = []string{"foo", "bar", "a.b"}
+
+var oddNames = []struct{ class, name string }{
+	// characters outside [a-zA-Z0-9_.-] (what file.IsValidFileName accepts)
+	{"punct", "azure+kv"}, {"punct", "kms@eu-west-1"}, {"punct", "hsm(v2)"}, {"punct", "x~1"}, {"punct", "a,b"}, {"punct", "a:b"},
+	{"punct", "a=b"}, {"punct", "#1"}, {"punct", "100%"}, {"punct", "a!b"}, {"punct", "~"},
+	{"space", "my plugin"}, {"space", " lead"}, {"space", "trail "}, {"space", "a\tb"},
+	{"nonascii", "schlüssel"}, {"nonascii", "密钥"}, {"nonascii", "clé"}, {"nonascii", "é"},
+	// characters with a meaning to shells, patterns and formats
+	{"meta", "x*"}, {"meta", "q?"}, {"meta", "[ab]"}, {"meta", "$HOME"}, {"meta", "a'b"}, {"meta", `a"b`}, {"meta", "a;b"},
+	{"meta", "a&b"}, {"meta", "a|b"}, {"meta", "a<b>"}, {"meta", "a{b}"}, {"meta", "%41"}, {"meta", "a%sb"},
+	// inside the portable alphabet, but with a shape of their own
+	{"case", "Foo"}, {"case", "FOO"}, {"case", "fOO"},
+	{"dots", ".hidden"}, {"dots", "..."}, {"dots", "..a"}, {"dots", "a.."}, {"dots", "foo."}, {"dots", "foo.exe"},
+	{"dash", "-rf"}, {"dash", "a-b"}, {"dash", "a_b"}, {"dash", "-"}, {"dash", "--"},
+	{"prefix", "notation-foo"}, {"prefix", "notation"}, {"prefix", "Notation-x"},
+	{"reserved", "CON"}, {"reserved", "aux"}, {"reserved", "1"}, {"reserved", "0.1"},
+}
+
+func renameStr(s string, m map[string]string) string {
+	if t, ok := m[s]; ok {
+		return t
+	}
+	if n, ok := strings.CutPrefix(s, "notation-"); ok {
+		if t, ok := m[n]; ok {
+			return "notation-" + t
+		}
+	}
+	return s
+}
+
+// renamed: the same sequence about other plugin names (a deep copy): names of root directories, of the
+// notation-<name> files and directories, and the names the scripts report are mapped consistently.
+func renamed(in Input, m map[string]string) Input {
+	out := in
+	out.Ops = make([]Op, len(in.Ops))
+	for i, op := range in.Ops {
+		op.Name = renameStr(op.Name, m)
+		op.SrcIn = renameStr(op.SrcIn, m)
+		op.SrcBase = renameStr(op.SrcBase, m)
+		es := make([]Entry, len(op.Entries))
+		for j, e := range op.Entries {
+			e.Name = renameStr(e.Name, m)
+			if e.Script != nil {
+				c := *e.Script
+				c.Name = renameStr(c.Name, m)
+				e.Script = &c
+			}
+			ns := make([]File, len(e.Nested))
+			for k, f := range e.Nested {
+				f.Name = renameStr(f.Name, m)
+				if f.Script != nil {
+					c := *f.Script
+					c.Name = renameStr(c.Name, m)
+					f.Script = &c
+				}
+				ns[k] = f
+			}
+			e.Nested = ns
+			es[j] = e
+		}
+		op.Entries = es
+		out.Ops[i] = op
+	}
+	return out
+}
+
+// cycleNames: base names -> three consecutive odd names starting at k
+func cycleNames(k int) map[string]string {
+	m := map[string]string{}
+	for j, b := range baseNames {
+		m[b] = oddNames[(k+j)%len(oddNames)].name
+	}
+	return m
+}
+
+// drawNames: every base name is kept or gets an odd name of its own
+func (g *gen) drawNames() map[string]string {
+	m := map[string]string{}
+	perm := g.c.Rand.Perm(len(oddNames))
+	for j, b := range baseNames {
+		if g.chance(0.7) {
+			o := oddNames[perm[j]]
+			m[b] = o.name
+			g.c.Count("name.renamed." + o.class)
+		}
+	}
+	return m
+}
+
+// nameShapes: for every odd name the life of a plugin called so - installed, a downgrade refused, reinstalled
+// with overwrite, uninstalled, uninstalled again - listed / fetched / asked after every step; and a root
+// holding plugins of three kinds of names at once, one of them removed from the middle.
+func (g *gen) nameShapes() []Input {
+	var out []Input
+	worlds := append([]string{"none"}, rootLinks...)
+	un := func(n string) Op { return Op{Kind: "uninstall", Name: n, Entries: []Entry{}} }
+	for k, o := range oddNames {
+		n, fromDir := o.name, k%2 == 0
+		out = append(out, Input{Kind: "seq", RootLink: worlds[k%len(worlds)], Ops: []Op{
+			g.simpleInstall(n, "2.0.0", false, fromDir), g.simpleInstall(n, "1.0.0", false, !fromDir),
+			g.simpleInstall(n, "2.0.0", true, !fromDir), un(n), un(n)}})
+		n2 := oddNames[(k+1)%len(oddNames)].name
+		out = append(out, Input{Kind: "seq", RootLink: worlds[(k+2)%len(worlds)], Ops: []Op{
+			g.simpleInstall("foo", "1.1.0", false, !fromDir), g.simpleInstall(n, "2.0.0", false, fromDir),
+			g.simpleInstall(n2, "1.0.0", false, !fromDir), g.simpleInstall(n, "2.0.1", false, !fromDir), un(n),
+			g.simpleInstall("foo", "1.0.0", false, fromDir)}})
+		g.c.Count("name.shape." + o.class)
+	}
+	return out
+}
+
 // simpleInstall: install plugin name at version from a plain source
 func (g *gen) simpleInstall(name, version string, overwrite, fromDir bool) Op {
 	s := &Script{Name: name, Version: version, Valid: true}
@@ -1272,7 +1395,8 @@ func Run(c *common.Ctx) error {
 	var seqs []Input
 	// every regression shape in every world: plain root, root (or an ancestor) reached through a
 	// symbolic link, in-root sources spelled through the link or through the real path
-	for _, sh := range g.regressionShapes() {
+	shapes := g.regressionShapes()
+	for _, sh := range shapes {
 		for _, rl := range append([]string{"none"}, rootLinks...) {
 			sh.RootLink = rl
 			seqs = append(seqs, sh)
@@ -1292,12 +1416,30 @@ func Run(c *common.Ctx) error {
 		}
 	}
 	nPairs := len(seqs) - nShapes
+	// plugin names: the life of a plugin under every odd name, and every regression shape once more about
+	// other names (the worlds cycle)
+	seqs = append(seqs, g.nameShapes()...)
+	for k, sh := range shapes {
+		sh = renamed(sh, cycleNames(k))
+		sh.RootLink = append([]string{"none"}, rootLinks...)[k%5]
+		seqs = append(seqs, sh)
+	}
+	nNames := len(seqs) - nShapes - nPairs
 	nRandom := 2500
 	if c.Thorough() {
 		nRandom = 30000
 	}
+	firstRandom := len(seqs)
 	for i := 0; i < nRandom; i++ {
 		seqs = append(seqs, g.sequence())
+	}
+	// 40 % of the random sequences are about other plugin names (drawn after the sequences themselves)
+	nRenamed := 0
+	for i := firstRandom; i < len(seqs); i++ {
+		if g.chance(0.4) {
+			seqs[i] = renamed(seqs[i], g.drawNames())
+			nRenamed++
+		}
 	}
 
 	seqs = append(seqs, g.slowShapes()...)
@@ -1452,7 +1594,7 @@ func Run(c *common.Ctx) error {
 		}
 		emitSem(v, w)
 	}
-	c.Note("C20: %d operation sequences on a real plugin root with shell-script plugins (%d regression shapes, %d version-pair sequences = every ordered pair of %d versions x overwrite x source kind, %d random sequences of 1..6 install/uninstall operations - interleaved with the world planting stale / hand-copied / malfunctioning plugin directories (plant) or deleting only the binary (rmexe), 10% on a plugin root that does not exist yet - over file modes (owner / group-other execute bits independent) and source shapes: file/dir, exec/non-exec candidates, extras sorting before/after, sub-directories incl. one named like the source, symlinks, misnamed/invalid metadata, odd names); %d semver pairs (all pairs of %d fixed strings + grammar-directed/mutated).",
-		len(seqs), nShapes, nPairs, len(pool), nRandom, nSem, len(all))
+	c.Note("C20: %d operation sequences on a real plugin root with shell-script plugins (%d regression shapes, %d version-pair sequences = every ordered pair of %d versions x overwrite x source kind, %d plugin-name sequences = the life of a plugin under each of %d odd names (characters outside [a-zA-Z0-9_.-], spaces, non-ASCII, shell / pattern / format characters, case variants, dots, dashes, the prefix itself) + mixed roots + the regression shapes renamed, %d random sequences (%d of them renamed to odd plugin names) of 1..6 install/uninstall operations - interleaved with the world planting stale / hand-copied / malfunctioning plugin directories (plant) or deleting only the binary (rmexe), 10% on a plugin root that does not exist yet - over file modes (owner / group-other execute bits independent) and source shapes: file/dir, exec/non-exec candidates, extras sorting before/after, sub-directories incl. one named like the source, symlinks, misnamed/invalid metadata, odd names); %d semver pairs (all pairs of %d fixed strings + grammar-directed/mutated).",
+		len(seqs), nShapes, nPairs, len(pool), nNames, len(oddNames), nRandom, nRenamed, nSem, len(all))
 	return nil
 }
